@@ -56,3 +56,39 @@ example (env : Env) (svc : Services) (P : Particle) : ∃ st, Reachable env svc 
   ⟨_, ⟨[.start], rfl⟩, rfl⟩
 
 end AquaProps.C19
+
+namespace AquaProps.C19
+open Aqua Aqua.Exec Aqua.Air Aqua.Net AquaProps AquaProps.NetLift
+
+/-- **Everything on the wire was produced by a run**: in every reachable state, each message in flight carries the
+data an earlier accepted run returned to its host and is addressed to one of the next peers that run named —
+never to the peer that produced it.  (So the current data an honest host is ever handed is interpreter output,
+and a particle travels only where some run asked for it.) -/
+theorem C19_network_wire_from_runs (env : Env) (svc : Services) (P : Particle) (st : NetSt)
+    (h : Reachable env svc P st) :
+    ∀ m ∈ st.wire, ∃ r ∈ st.runs, accepted r.res = true ∧ m.data = r.newData ∧ m.dest ∈ r.nextPeers ∧ m.dest ≠ r.peer := by
+  have hw : ∀ m ∈ st.wire, ∃ r ∈ st.runs, m.data = r.newData ∧ m.dest ∈ r.nextPeers := by
+    refine reachable_induction (env := env) (svc := svc) (P := P)
+      (fun st => ∀ m ∈ st.wire, ∃ r ∈ st.runs, m.data = r.newData ∧ m.dest ∈ r.nextPeers) ?_ ?_ ?_ h
+    · intro m hm; cases hm
+    · intro st w hsub hq m hm; exact hq m (hsub.subset hm)
+    · intro st r hq m hm
+      have hwire : (absorb st r).wire = st.wire ++ r.nextPeers.map (fun q => ⟨q, r.newData⟩) := rfl
+      have hruns : (absorb st r).runs = st.runs ++ [r] := rfl
+      rw [hwire] at hm
+      rw [hruns]
+      rcases List.mem_append.mp hm with hm | hm
+      · obtain ⟨r', hr', h1, h2⟩ := hq m hm
+        exact ⟨r', List.mem_append_left _ hr', h1, h2⟩
+      · obtain ⟨q, hq', rfl⟩ := List.mem_map.mp hm
+        exact ⟨r, List.mem_append_right _ (List.mem_singleton.mpr rfl), rfl, hq'⟩
+  intro m hm
+  obtain ⟨r, hr, h1, h2⟩ := hw m hm
+  refine ⟨r, hr, ?_, h1, h2, C19_network_never_forwards_to_self env svc P st h r hr m.dest h2⟩
+  cases hacc : accepted r.res with
+  | true => rfl
+  | false =>
+    have := (C19_network_failed_run_inert r hacc).2.1
+    rw [this] at h2; cases h2
+
+end AquaProps.C19
